@@ -207,6 +207,7 @@ package memfs
 //@   ensures foralls(s, s != name ==> has(d.index, s) == old(has(d.index, s)) && d.index[s] == old(d.index[s]))
 //@   ensures forall(k, 0 <= k && k < old(len(d.nodes)) ==> d.nodes[k] == old(d.nodes[k]))
 //@   ensures err != nil ==> dir == nil
+//@   ensures err == nil ==> has(d.index, name) && typeis(d.index[name], "*memfs.Dir") && payload(d.index[name]) == ref(dir)
 
 // removeNodeByName: succeeds exactly when the name is present; the other nodes keep their order
 //@ func (*Dir).removeNodeByName [C01 C09]
@@ -260,6 +261,11 @@ package memfs
 //@   loop 1 decreases len(pathNodes) - i
 //@   loop 2 invariant 0 <= i && i <= len(pathNodes) && isNode(node) && isa(dir, "memfs.Dir")
 //@   loop 2 decreases len(pathNodes) - i
+// the walk is the iterated index lookup: an empty segment keeps the node, any other segment
+// requires a directory and moves to exactly the child that its index holds under that name
+//@   loop 2 step i == prev(i) + 1
+//@   loop 2 step pathNodes[prev(i)] == "" ==> node == prev(node)
+//@   loop 2 step pathNodes[prev(i)] != "" ==> typeis(prev(node), "*memfs.Dir") && has(as(prev(node), "*memfs.Dir").index, pathNodes[prev(i)]) && node == as(prev(node), "*memfs.Dir").index[pathNodes[prev(i)]]
 //@ func getDirByPathNodes [C01 C09]
 //@   requires Tree() && isa(dir, "memfs.Dir")
 //@   modifies $none
@@ -298,6 +304,11 @@ package memfs
 //@   ensures err != nil ==> dir == nil
 //@   loop 1 invariant Tree() && isa(d, "memfs.Dir") && -1 <= $i && $i < len(nodesPath)
 //@   loop 1 decreases len(nodesPath) - $i
+// each step stays (empty or "." segment) or descends into the child directory of that name,
+// which exists afterwards
+//@   loop 1 step $i == prev($i) + 1
+//@   loop 1 step (nodesPath[$i] == "" || nodesPath[$i] == ".") ==> d == prev(d)
+//@   loop 1 step !(nodesPath[$i] == "" || nodesPath[$i] == ".") ==> has(prev(d).index, nodesPath[$i]) && payload(prev(d).index[nodesPath[$i]]) == ref(d)
 //@ func mkdirAll [C01 C09]
 //@   requires Tree() && isa(d, "memfs.Dir")
 //@   modifies memfs.Dir.nodes, M:string:fs.FileInfo, E:fs.FileInfo, $maplen
